@@ -2,6 +2,7 @@ package sim
 
 import (
 	"fmt"
+	"runtime"
 
 	"pgregory.net/rapid"
 
@@ -82,6 +83,12 @@ func runGiantCase(c *Case, env *Env) *Result {
 	res := &Result{SubRuns: 1, NonTrivial: true}
 	sched := NewSched(nil)
 	defer res.absorb(sched)
+	// ice's builder reserves (bytes per document of the pooled builder's previous
+	// build) x (documents of this batch): empty the pool first, so that a
+	// 66 000-document batch does not inherit the estimate of an earlier case with
+	// megabyte-sized documents (sync.Pool drops its contents after two GC cycles)
+	runtime.GC()
+	runtime.GC()
 	w, fail := BuildWorldFor(env.Prop, giantWorld(c.Special), sched)
 	if fail != nil {
 		res.Fail = fail
